@@ -306,4 +306,3 @@ func verifStoreInv(s *Store) bool {
 	c := mapAll(s.active.w, func(name string, _ []watcher) bool { return mapHas(s.active.m, name) })
 	return and(a, b, c)
 }
-
